@@ -74,6 +74,12 @@ KINDS = {
     "enum_inline_defaults": ({"oneOf": [{"type": "object", "properties": {"V": {"type": "object", "properties": {"flag": {"type": "boolean", "default": True}, "n": INT}}},
                                          "required": ["V"], "additionalProperties": False}, {"type": "string", "enum": ["U"]}]},
                              ["U", {"V": {"n": 1}}, {"V": {}}], ["Z", {"V": {"n": "s"}}], False),
+    "struct_req_nullable": ({"type": "object", "properties": {"a": {"type": ["string", "null"]}, "b": INT}, "required": ["a", "b"]},
+                            [{"a": None, "b": 7}, {"a": "s", "b": 1}], [{"b": 7}, {"a": None}], False),
+    "enum_int_req_nullable": ({"oneOf": [{"type": "object", "properties": {"kind": {"type": "string", "enum": ["some"]}, "value": {"type": ["integer", "null"]}, "extra": INT},
+                                          "required": ["kind", "value", "extra"]},
+                                         {"type": "object", "properties": {"kind": {"type": "string", "enum": ["none"]}}, "required": ["kind"]}]},
+                              [{"kind": "none"}, {"kind": "some", "value": None, "extra": 1}], [{"kind": "some", "extra": 1}], False),
     "enum_ext": (ref("Ext"), ["U", {"N": 1}, {"S": {"x": 1}}], ["Z", {"N": "s"}], False),
     "enum_int": (ref("Int"), [{"t": "A", "x": 1}, {"t": "B"}, {"t": "A", "x": 1, "y": "s"}], [{"t": "Z"}, {"t": "A"}], False),
     "enum_adj": (ref("Adj"), [{"t": "A", "c": 1}, {"t": "B", "c": "s"}], [{"t": "A", "c": "s"}], False),
@@ -86,7 +92,7 @@ KINDS = {
     "date": ({"type": "string", "format": "date"}, ["2020-02-29"], [], True),
 }
 QUICK_KINDS = ["bool", "u8", "i64", "nz32", "f64", "string", "str_max2", "str_enum", "opt_scalar", "opt_struct", "vec", "set", "map_int", "map_any",
-               "tuple1", "tuple2", "struct", "struct_nested_defaults", "struct_inline_defaults", "enum_inline_defaults", "struct_flat", "enum_ext", "enum_int", "typed_enum", "boxed", "unit", "uuid"]
+               "tuple1", "tuple2", "struct", "struct_req_nullable", "struct_nested_defaults", "struct_inline_defaults", "enum_inline_defaults", "struct_flat", "enum_ext", "enum_int", "typed_enum", "boxed", "unit", "uuid"]
 
 
 def with_default(schema, d):
